@@ -156,7 +156,7 @@ def check(run):
     # validity, labels stay integer arrays, operator re-ordered consistently) on spin+qn, vibronic and ab-initio models, with and without the Jordan-Wigner remap
     from props import C17 as _c17
     swap_cases = [("swap", fam, n, False, run.seed, run.tier) for fam, n in (("spinqn", 3), ("spinqn", 4), ("vibronic", 3))] + \
-                 [("swap", "qc_short", 4, jw, run.seed, run.tier) for jw in (False, True)]
+                 [("swap", "qc_short", 4, jw, run.seed, run.tier) for jw in (False, True)] + [("swap", "spinqn@qr", 4, False, run.seed, run.tier), ("swap", "qc_short@qr", 4, False, run.seed, run.tier)]
     run_cases(run, _c17.worker, swap_cases)
     from props import C06_tree
     C06_tree.check(run)
